@@ -120,7 +120,10 @@ where
 	let mut out = Vec::new();
 	let nset = t.next_usize();
 	let sets: Vec<(String, String)> = (0..nset)
-		.map(|_| (t.next_str().replace("\\s", " ").replace("\\e", ""), t.next_str().replace("\\s", " ").replace("\\e", "")))
+		.map(|_| {
+			let dec = |x: &str| x.replace("\\s", " ").replace("\\t", "\t").replace("\\n", "\n").replace("\\e", "");
+			(dec(t.next_str()), dec(t.next_str()))
+		})
 		.collect();
 	if variant == "soak" {
 		return soak::<C>(t, &sets);
